@@ -9,6 +9,7 @@ import SfntV.Proofs.T2Progress
 import SfntV.Proofs.T2Loop
 import SfntV.Proofs.T2WF
 import SfntV.Proofs.T2WFCalls
+import SfntV.Proofs.T2End
 
 namespace SfntV.Props.C05
 open SfntV SfntV.T2 SfntV.Spec.T2
@@ -117,9 +118,17 @@ theorem C05_rejects_nomove (q : Quirks) (env : Env) (s : St) (dx dy : Int) (code
       exact rlineLoop_moveErr q _ _ (by simp [rLineTo, hm])
     simp [checkMove, clear, this]
 
-/-- Rejection, missing endchar: the empty program, and a program that only moves, are errors. -/
-theorem C05_rejects_missing_endchar (q : Quirks) (env : Env) :
-    T2.interp q env [] ≠ .ok g := by
+/-- Rejection, missing endchar — arbitrary programs, arbitrary subroutine tables, every quirk setting:
+the interpreter returns a glyph ONLY if an `endchar` operator (byte 14) was executed, in the main program
+or inside a subroutine.  Hence running out of code at top level, a top-level `return`, and any run that
+never executes `endchar` are errors, never a (mis-)decoded glyph. -/
+theorem C05_rejects_missing_endchar (q : Quirks) (env : Env) (code : List Nat) (g : Glyph)
+    (h : T2.interp q env code = .ok g) :
+    ∃ s1 rest s2, step q env s1 (14 :: rest) = .ok (.done s2) ∧ g = s2.glyph :=
+  ok_only_by_endchar q env code g h
+
+/-- … in particular the empty program is an error. -/
+theorem C05_rejects_empty (q : Quirks) (env : Env) : T2.interp q env [] ≠ .ok g := by
   cases hq : q.implicitReturn <;> simp [T2.interp, interpSt, runAt, loop, hq, Gen.t2callDepth]
 
 /-- Operator lemma, rlineto: one coordinate pair appends one line to (x+dx, y+dy). -/
@@ -283,6 +292,22 @@ def exMain : PProgram :=
   [.tok (.int 50), .tok (.int 10), .tok (.int 20), .tok (.op .hstem), .call false 1, .call false 0]
 
 example : wfCheckP exTables 100 exMain = true ∧ agreesCheckP exTables exMain = true := by decide
+
+/-- partial operator applications across a call are inside the grammar: operands pushed by the caller and
+the operator in the callee (local 0), operands pushed by the callee and the operator in the caller (local 1) -/
+def exTables2 : Tables :=
+  { lsubrs := [[.tok (.op .rmoveto)], [.tok (.int 3), .tok (.int 4)]], gsubrs := [] }
+
+example : wfCheckP exTables2 100
+    [.tok (.int 1), .tok (.int 2), .call false 0, .call false 1, .tok (.op .rlineto), .tok (.op .endchar)] = true := by
+  decide
+
+/-- value-dependent operators with literal deciding operands:
+"7 2 div  9 sqrt  1 index  3 1 roll  5 put  5 get" -/
+example : WF [.int 7, .lit (.div 2), .lit (.sqrt 9), .lit (.index 1), .lit (.roll 3 1), .lit (.put 5), .lit (.get 5),
+    .op .drop, .op .rmoveto, .op .endchar] := by decide
+
+example : ¬ WF [.lit (.get 5), .op .hmoveto, .op .endchar] := by decide
 
 /-- A well-formed sample program: width 50, hstem, implicit vstem + hintmask, rmoveto, rlineto with an
 arithmetic operand, hvcurveto with trailing operand, flex1, endchar. -/
